@@ -218,7 +218,28 @@ def rule_population_mean(ctx):
                   f"`{ast.unparse(n)[:60]}` is nan as soon as one sample has no reads at the position", f.where(n))
 
 
+def rule_row_is_position(ctx):
+    """the pileup yields a column only for positions that have a read passing the filters, so the row of the depth table a column is
+    counted into must be derived from the column's position (`column.pos - start`), never from how many columns came before it"""
+    fq = 'mchap.application.find_snvs.bam_region_depths'
+    f = ctx.func(fq)
+    r = ctx.recon(fq)
+    cnt = [c for c, _, _ in r.calls if c[1].endswith('find_snvs._count_alleles')]
+    ctx.need(len(cnt) >= 1, f"{fq}: the call that counts the alleles of a pileup column was not found")
+    for k, c in enumerate(cnt):
+        cell = c[2][0]
+        ok = False
+        if cell[0] == 'idx' and cell[2][0] == 'tuple' and len(cell[2][1]) >= 1:
+            row = cell[2][1][0]
+            ok = row[0] == 'bin' and row[1] == 'Sub' and row[3] == ('param', 'start') and row[2][0] == 'attr' and row[2][2] in ('pos', 'reference_pos') \
+                and row[2][1][0] == 'loopvar' and any(x[0] == 'call' and x[1] == '.pileup' for x in walk(row[2][1]))
+        ctx.check(ok, 'R19.6/row-is-position', f.construct(f'row#{k + 1}'), "depth row = column.pos - start",
+                  "the row of the depth table is not the pileup column's position minus the start of the target: positions without reads are not "
+                  "yielded, so every later column of a sample with a gap is counted into the wrong position", f.where())
+
+
 def run(ctx):
+    rule_row_is_position(ctx)
     rule_implicit_filters(ctx)
     rule_population_mean(ctx)
     rule_kwargs(ctx)
